@@ -73,12 +73,25 @@ def run_task(task):
     try:
         if kind == "opt":           # same arithmetic in fresh `python -O` / `-OO` interpreters
             from vlib import optrun
+            from vlib.afterfail import after_failures
+            import decimal
+            # valid calls made after calls that raised, and under a caller whose decimal context is tiny
+            bad = [lambda: enc_f(None), lambda: enc_f("7"), lambda: enc_f([1]), lambda: dec_f(None), lambda: dec_f(7), lambda: enc_f()]
+            with decimal.localcontext() as ctx_:
+                ctx_.prec = 2
+                for n in (0, 252, 253, 64009, B ** 3, B ** 4 - 1, 123456789):
+                    e = refcodec.ref_encode(n)
+                    got = after_failures(bad, lambda: (enc_f(n), dec_f(e)))
+                    if got != ("ok", (e, n)):
+                        raise Violation("encode_independent_of_call_history", {"kind": "seq", "ns": [n], "after_failed_calls": True},
+                                        [e.hex(), n], [str(x) for x in got], "valid calls after calls that raised")
+            res.extra["calls_after_failed_calls"] = 7
             ns = sorted(set(list(range(0, 600)) + [B ** 2 - 1, B ** 2, B ** 3 - 1, B ** 3, B ** 4 - 1]
                             + [i * 7919 % (B ** 4) for i in range(1, 1500)]))
             bss = [bytes([a, b, c_, d]).hex() for a in (0, 1, 0x80, 0xFD, 0xFE, 0xFF) for b in (0, 2, 0xFE, 0xFF)
                    for c_ in (1, 0xFE) for d in (0, 3, 0xFE)] + ["", "05", "fe01", "0102030405"]
             jobs = [{"fn": "encode_number", "arg": n} for n in ns] + [{"fn": "decode_number", "arg": h} for h in bss]
-            for flag in ("-O", "-OO", "-Werror"):
+            for flag in ("-O", "-OO", "-Werror", "-bb", "-Xdev"):
                 got = optrun.run(jobs, flag)
                 for job, g in zip(jobs, got):
                     exp = refcodec.ref_encode(job["arg"]).hex() if job["fn"] == "encode_number" \
@@ -165,6 +178,18 @@ def run_task(task):
             res.sample({"n": task["lo"] * B ** 3 + 252, "encoded": enc_f(task["lo"] * B ** 3 + 252).hex()})
         elif kind == "hyp":
             def oracle(case):
+                try:
+                    _oracle(case)
+                except Violation:
+                    raise
+                except Exception as e:  # noqa: BLE001 - the functions are total on these arguments
+                    k_ = case[0]
+                    cj = ({"kind": "n", "n": case[1]} if k_ == "n" else {"kind": "sub", "n": case[1]} if k_ == "sub"
+                          else {"kind": k_, "ns": list(case[1])} if k_ in ("seq", "reuse")
+                          else {"kind": "bytes", "hex": bytes(case[1]).hex()})
+                    raise Violation("no_exception", cj, "returns", f"{type(e).__name__}: {e}"[:200])
+
+            def _oracle(case):
                 res.evaluations += 1
                 if case[0] == "n":
                     n = case[1]
@@ -271,6 +296,15 @@ def plan(tier, seed):
 
 
 def replay(case):
+    try:
+        _replay(case)
+    except Violation:
+        raise
+    except Exception as e:  # noqa: BLE001
+        raise Violation("no_exception", case, "returns", f"{type(e).__name__}: {e}"[:200])
+
+
+def _replay(case):
     c = loader.core()
     enc_f, dec_f = c.data.encode_number, c.data.decode_number
     if case["kind"] in ("sub", "reuse"):
